@@ -101,9 +101,18 @@ class MinuitFitter(Fitter):
             if k not in self.theory.parameters:
                 raise ValueError('Parameter {} is not defined in model {}'.format(
                         k, self.theory))
+        # minuit validates the limits (and drops the old one before it does):
+        # set them there first, put the old ones back if one is rejected,
+        # and only then update the theory, so that the two stay in sync
+        old = {k: self.minuit.limits[k] for k in dct}
+        try:
+            for k, v in dct.items():
+                self.minuit.limits[k] = v
+        except Exception:
+            for k, v in old.items():
+                self.minuit.limits[k] = v
+            raise
         self.theory.parameters_limits.update(dct)
-        for k, v in dct.items():
-            self.minuit.limits[k] = v
 
     def free_parameters(self) -> List[str]:
         """Return list of names of free fitting parameters."""
